@@ -20,8 +20,8 @@ open Ural.Py Ural.UrlParts Ural.Quote
 
 theorem safelyUnquote_idem' (U : List UInt8) (hU : (0x25 : UInt8) ∈ U) (hA : AsciiSet U) (s : Str) :
     safelyUnquote U (safelyUnquote U s) = safelyUnquote U s := by
-  show render (unquoteToks U (tokens (safelyUnquote U s))) = _
-  rw [tokens_safelyUnquote U hU, unquoteToks_idem U hU hA]
+  show render (unquoteToks U (escapeRaw (tokens (safelyUnquote U s)))) = _
+  rw [tokens_safelyUnquote U hU, escapeRaw_unquoteToks, unquoteToks_idem U hU hA]
   rfl
 
 /-- what the second pass's unquoter sees is what the first pass's unquoter produced -/
